@@ -58,6 +58,54 @@ def findLight (n : Net) (i : Id) : Option Elem := n.lights.find? (fun s => s.1 =
 /-- `network.find_intersection_by_id(i)`. -/
 def findInter (n : Net) (i : Id) : Option Intersection := n.inters.find? (fun s => s.id == i)
 
+/-- `network.find_traffic_sign_by_id(i)` where `i` is the id of an element the loop took from that very network (the loops of
+`remove_hanging_lanelet_members`): the element itself; the default is never used there and has the same id. -/
+def foundSign (n : Net) (i : Id) : Elem := (findSign n i).getD (i, 0)
+
+/-- `network.find_traffic_light_by_id(i)`, same reading as `foundSign`. -/
+def foundLight (n : Net) (i : Id) : Elem := (findLight n i).getD (i, 0)
+
+/-- `net.add_traffic_sign(copy.deepcopy(e), set())` (lanelet.py add_traffic_sign with no lanelet ids): `None` fails the
+`isinstance` assert (AssertionError); a sign whose id is already a key is not added. -/
+def addSignR (n : Net) (e : Option Elem) : Res Net :=
+  match e with
+  | none => .error .assert
+  | some e => .ok (if n.sids.contains e.1 then n else { n with signs := n.signs ++ [e] })
+
+/-- `net.add_traffic_light(copy.deepcopy(e), set())`, as `addSignR`. -/
+def addLightR (n : Net) (e : Option Elem) : Res Net :=
+  match e with
+  | none => .error .assert
+  | some e => .ok (if n.tids.contains e.1 then n else { n with lights := n.lights ++ [e] })
+
+/-- `net.add_lanelet(copy.deepcopy(l), rtree=False)`: `None` fails the `isinstance` assert; otherwise `addLanelet`. -/
+def addLaneletR (n : Net) (l : Option Lanelet) : Res Net :=
+  match l with
+  | none => .error .assert
+  | some l => .ok (addLanelet n l)
+
+/-- `net.add_intersection(i)` (lanelet.py add_intersection): an intersection whose id is already a key is not added. -/
+def addInter (n : Net) (i : Intersection) : Net :=
+  if n.iids.contains i.id then n else { n with inters := n.inters ++ [i] }
+
+/-- outcome of one pass through the body of the loop over the old intersections: `none` = `continue`, `some i` =
+`net.add_intersection(i)`. -/
+def addInterO (n : Net) (o : Option Intersection) : Net :=
+  match o with
+  | none => n
+  | some i => addInter n i
+
+/-- sequencing of a statement that may raise with the rest of a function that returns a value (`Res`). -/
+def bindR (r : Res Net) (k : Net → Res Net) : Res Net :=
+  match r with
+  | .ok n => k n
+  | .error e => .error e
+
+/-- `for x in xs: <adding call that may raise>` : each element in turn, stopping at the first exception. -/
+def forR (f : Net → Id → Res Net) : Net → List Id → Res Net
+  | n, [] => .ok n
+  | n, x :: xs => bindR (f n x) (fun n' => forR f n' xs)
+
 /-- The id of the object `network.find_*_by_id(i)` returns when `i` is the id of an element of that network (the loops of
 `remove_hanging_lanelet_members` look up the very elements they iterate over): lists of such objects are carried as id lists. -/
 def idOfFound (_ : Net) (i : Id) : Id := i
